@@ -516,6 +516,8 @@ def check_case(case, cli, lib, res, stats):
             text, want_target = open(dp).read(), "lib_" + case["out"]
         target, deps = read_depfile(text)
         stats["depfiles"] += 1
+        stats["lines"].append({"case": "%s/%s" % (case["id"], channel), "line": list(text), "target": list(target),
+                               "deps": [list(x) for x in deps]})
         if target != want_target:
             viol.append(("%s:target-name" % channel, {"case": case["id"], "got": target, "want": want_target, "line": text}))
         if len(deps) != len(set(deps)):
@@ -536,6 +538,21 @@ def check_case(case, cli, lib, res, stats):
         if other:
             res.drift.append("unexpected stdout line from CargoCallbacks: %r (%s)" % (other[0], case["id"]))
     return viol
+
+
+def validate_lines(lines, name):
+    """Trace_DepEscape.tla over the observed dep-file lines -> (bad cases, count, tlc result)."""
+    tp = os.path.join(C.workdir("c17-trace-" + name), "lines.ndjson")
+    with open(tp, "w") as f:
+        for x in lines:
+            f.write(json.dumps(x) + "\n")
+    r = C.tlc(os.path.join(FRONT, "Trace_DepEscape.tla"), cfg="Trace_DepEscape.cfg", env={"TRACE": tp}, workers=1,
+              dfs=True, timeout=900, name="c17-tv-" + name)
+    if not C.tlc_ok(r):
+        raise C.ToolError("Trace_DepEscape did not complete: %s" % r["out"][-1200:])
+    bad = C.tlc_prints(r["out"], "BAD")
+    cnt = C.tlc_prints(r["out"], "COUNT")
+    return (bad[0] if bad else []), (cnt[0]["n"] if cnt else 0), r
 
 
 def env_cross_check(case, clang_set):
@@ -707,7 +724,7 @@ def run(res, tier):
     out = run_deps_driver([lib_job(c) for c in cases], "c17-drive")
     out.update(run_deps_driver(ejobs, "c17-drive-env", shim=build_shim()))
 
-    stats = {"depfiles": 0, "callback_runs": 0, "gnu_make_differs": 0}
+    stats = {"depfiles": 0, "callback_runs": 0, "gnu_make_differs": 0, "lines": []}
     feats = {}
     nviol = 0
     first_ok = None
@@ -724,6 +741,17 @@ def run(res, tier):
             first_ok = (c, cli)
     nenv = check_env(res, out, eexpect)
 
+    # ---- T: TLC checks every observed dep-file line against the spec's writer and reader -----------
+    bad, nlines, tr = validate_lines(stats["lines"], "all")
+    for b in bad:
+        res.violation("depfile:escape-round-trip", {"case": b})
+    res.add(states=tr["distinct"], transitions=tr["generated"], depfile_lines_validated_by_tlc=nlines)
+    t0 = dict(stats["lines"][0])
+    t0["line"] = [ch for ch in t0["line"] if ch != "\\"][:-1] + ["\\", " ", "x"]
+    tb, _, _ = validate_lines([t0], "tamper")
+    if not tb:
+        raise C.ToolError("a tampered dep-file line was accepted by Trace_DepEscape")
+
     # ---- non-vacuity: a tampered observation must be flagged ------------------------------------
     if first_ok is None:
         raise C.ToolError("no clean case available for the tamper self-test")
@@ -737,10 +765,11 @@ def run(res, tier):
     tests.append(("rename the target", dict(cli, depfile="x" + cli["depfile"])))
     scratch = C.Result(res.prop, tier, LEVEL)
     for what, obs in tests:
-        if not check_case(c, obs, None, scratch, dict(stats)):
+        if not check_case(c, obs, None, scratch, dict(stats, lines=[])):
             raise C.ToolError("tamper self-test (%s) was not flagged" % what)
     res.add(tampered_observations_flagged=len(tests))
 
+    del stats["lines"]
     res.add(traces_validated_against_impl=stats["depfiles"] + stats["callback_runs"] + nenv,
             depfiles_parsed_back=stats["depfiles"], callback_runs=stats["callback_runs"], env_lookup_runs=nenv,
             clang_cross_checks=len(cases), special_name_cases=sum(1 for c in cases if c["special"]),
